@@ -5,12 +5,13 @@ CONSTANTS
   MaxListLen = 3
   Bounds <- BoundsQuick
   StepsC <- StepsQuick
-  NewVals = {105, 250}
+  NewVals = {105, 250, 251}
   DKeys = {1, 2, 3, 4}
-  DVals = {101, 102}
+  DVals = {101, 251, 0}
   MaxDictLen = 2
 INVARIANT LenLaw
 INVARIANT SliceLaw
 INVARIANT DelSliceLaw
 INVARIANT SortLaw
 INVARIANT DictLaw
+INVARIANT RebindLaw
